@@ -10,6 +10,7 @@ mode layouts, configurations, float front-end outputs (`halves`) and tapes; wher
 is needed it is the hypothesis `TapeOk tape`.
 -/
 import KDVerif.Lemmas.MixCollate
+import KDVerif.Lemmas.C10Extra
 
 namespace KDVerif.C10
 open KDVerif.MixCollator
@@ -511,5 +512,579 @@ theorem ctor_total_p (a : CtorArgs) (cfg : Cfg) (h : ctor a = .ok cfg) : cfg.tot
 
 example : (match ctor ⟨some (1/2), some (1/2), some (4/5), some 1, 1, some .batch, some .sample, some .roll⟩ with
     | .ok c => c.totalP == 1 | .error _ => false) = true := by decide +kernel
+
+/-! ## Round-2 additions: bijective partner maps, reported weight = used weight, totality, MAE configuration
+Spec vocabulary (`Vals`, `expectedTape`, `retainedCount`, `maeCfg`, …) is in `Model/C10Spec.lean`, helper lemmas
+(`c10x_…`) in `Lemmas/C10Extra.lean`. -/
+open KDVerif.C10Spec
+
+/-- **The partner map is a permutation of the batch** (clause "p follows the configured shuffle mode", the part
+    the in-place mixing relies on: every sample is read as a partner exactly once). For every successful call
+    whose tape satisfies the generator's contract (`TapeOk`: `rng.permutation(B)` returns a permutation),
+    `p = partnerSpec …` restricted to `0..B-1` is a bijection: the list `[p 0, …, p (B-1)]` is a permutation of
+    `0..B-1`, `p` is injective and surjective there; `flip` is an involution; `roll` has no fixed point for
+    `B ≥ 2` and sample `i+1` (cyclically) is the one that receives sample `i`; in mode `random` the list
+    `[p 0, …, p (B-1)]` *is* the permutation the call drew and reports. -/
+theorem partner_is_permutation {cfg halves tape mode batch out h w imgs}
+    (hc : collate cfg halves tape mode batch = .ok out) (hx : getItem mode "x" batch = some (.x h w imgs))
+    (hok : TapeOk tape) :
+    let B := imgs.length
+    let p := partnerSpec cfg.shuffle B out.perm
+    ((List.range B).map p).Perm (List.range B) ∧
+    (∀ i j, i < B → j < B → p i = p j → i = j) ∧
+    (∀ j, j < B → ∃ i, i < B ∧ p i = j) ∧
+    (cfg.shuffle = .flip → ∀ i, i < B → p (p i) = i) ∧
+    (cfg.shuffle = .roll → 2 ≤ B → ∀ i, i < B → p i ≠ i ∧ p ((i + 1) % B) = i) ∧
+    (cfg.shuffle = .random → B ≠ 1 →
+      ∃ l, out.perm = some l ∧ l.Perm (List.range B) ∧ (List.range B).map p = l) := by
+  intro B p
+  obtain ⟨_, _, hflip, hrand⟩ := partner_follows_shuffle_mode hc hx
+  have hperm : ((List.range B).map p).Perm (List.range B) :=
+    c10x_partnerSpec_perm cfg.shuffle B out.perm (fun hs hB => by
+      obtain ⟨l, hl, hp, _⟩ := hrand hB hs hok
+      exact ⟨l, hl, hp⟩)
+  refine ⟨hperm, c10x_inj_of_map_perm p B hperm, c10x_surj_of_map_perm p B hperm, ?_, ?_, ?_⟩
+  · intro hs i hi
+    by_cases hB : B = 1
+    · have : i = 0 := by omega
+      subst this
+      simp [p, partnerSpec, hB]
+    · simp only [p, partnerSpec, hB, if_false, hs]
+      omega
+  · intro hs hB i hi
+    have hB1 : B ≠ 1 := by omega
+    simp only [p, partnerSpec, hB1, if_false, hs]
+    rw [c10x_roll_closed B i hi, c10x_roll_closed B ((i + 1) % B) (Nat.mod_lt _ (by omega))]
+    by_cases hlast : i + 1 = B
+    · have : (i + 1) % B = 0 := by rw [hlast]; exact Nat.mod_self B
+      rw [this]
+      refine ⟨?_, ?_⟩
+      · split <;> omega
+      · simp only [if_true]; omega
+    · have : (i + 1) % B = i + 1 := Nat.mod_eq_of_lt (by omega)
+      rw [this]
+      refine ⟨?_, ?_⟩
+      · split <;> omega
+      · simp
+  · intro hs hB
+    obtain ⟨l, hl, hp, hpi⟩ := hrand hB hs hok
+    refine ⟨l, hl, hp, ?_⟩
+    have hlen : l.length = B := by rw [hp.length_eq]; simp [B]
+    rw [← c10x_map_getD_range l, hlen]
+    apply List.map_congr_left
+    intro i _
+    exact hpi i
+
+example : ((List.range 4).map (partnerSpec .roll 4 none)) = [3, 0, 1, 2] ∧
+    ((List.range 4).map (partnerSpec .flip 4 none)) = [3, 2, 1, 0] ∧
+    ((List.range 3).map (partnerSpec .random 3 (some [2, 0, 1]))) = [2, 0, 1] := by decide
+
+example : ∃ out, collate exCfg exHalves exTape exMode exBatch = .ok out ∧
+    ((List.range 3).map (partnerSpec exCfg.shuffle 3 out.perm)).Perm (List.range 3) := by
+  obtain ⟨out, h⟩ := ex_ok
+  exact ⟨out, h, (partner_is_permutation h ex_getX ex_tapeOk).1⟩
+
+/-- **The weight reported in the context is the weight used** (clause of that name, stated on the raw context
+    tensors instead of through `ctxWeight`). `ctx["lambda"]` and `ctx["use_cutmix"]` have one entry per batch
+    (lamb_mode=batch) or one per sample (lamb_mode=sample); for every sample `i` the entry
+    `lam = ctx["lambda"][i]` (`[0]` in batch mode) exists and is *the* number that
+    * mixes the label row: `y'_i = lam·y_i + (1-lam)·y_p(i)`,
+    * mixes the image if `ctx["use_cutmix"]` says mixup: `x'_i = lam·x_i + (1-lam)·x_p(i)` pixel by pixel,
+    * is the retained pixel fraction if `ctx["use_cutmix"]` says cutmix: `x'_i` is `x_i` with the slice `b` of
+      `x_p(i)` pasted, `b` inside the (non-empty) image, and the number of pixel positions outside `b`, counted
+      position by position (`retainedCount`), divided by `h·w` equals `lam` (the area-corrected lambda, not the
+      Beta draw),
+    all with the same partner `p(i)`.
+    Hypotheses: `TapeOk` = the generator's contract; `0 ≤ total_p` holds for every constructed collator
+    (`ctor_total_p`). -/
+theorem ctx_lambda_is_weight_used {cfg halves tape mode batch out h w imgs rows}
+    (hc : collate cfg halves tape mode batch = .ok out) (hx : getItem mode "x" batch = some (.x h w imgs))
+    (hm : "class" ∈ mode) (hy : getItem mode "class" batch = some (.cls2 rows))
+    (hok : TapeOk tape) (htp : 0 ≤ cfg.totalP) :
+    out.ctxLambda.length = perLen cfg.lambMode imgs.length ∧
+    out.ctxUseCutmix.length = perLen cfg.lambMode imgs.length ∧
+    ∃ imgs' rows', getItem mode "x" out.batch = some (.x h w imgs') ∧
+      getItem mode "class" out.batch = some (.cls2 rows') ∧
+      ∀ i, i < imgs.length →
+        ∃ lam uc, out.ctxLambda[pick cfg.lambMode i]? = some lam ∧ out.ctxUseCutmix[pick cfg.lambMode i]? = some uc ∧
+          let p := partnerSpec cfg.shuffle imgs.length out.perm i
+          rows'.getD i [] = mixRow lam (rows.getD i []) (rows.getD p []) ∧
+          (uc = false → ∀ c r k, imgs'.getD i zeroImg c r k =
+              lam * imgs.getD i zeroImg c r k + (1 - lam) * imgs.getD p zeroImg c r k) ∧
+          (uc = true → ∃ b : Box, b.top ≤ b.bot ∧ b.bot ≤ h ∧ b.left ≤ b.right ∧ b.right ≤ w ∧ 0 < h ∧ 0 < w ∧
+              (∀ c r k, imgs'.getD i zeroImg c r k =
+                if b.mem r k = true then imgs.getD p zeroImg c r k else imgs.getD i zeroImg c r k) ∧
+              (retainedCount h w b : Rat) / ((h * w : Nat) : Rat) = lam) := by
+  obtain ⟨r⟩ := collate_run hc
+  have hg := r.getX
+  rw [hx] at hg
+  simp only [Option.some.injEq, Item.x.injEq] at hg
+  obtain ⟨hh, hw, himgs⟩ := hg
+  subst hh hw himgs
+  have f := plan_facts r.hplan
+  obtain ⟨hout, hlen⟩ := out_labels_cls2 r hm hy
+  have hL : out.ctxLambda.length = perLen cfg.lambMode r.imgs.length := by
+    rw [r.ctxL, f.lam_len]; cases cfg.lambMode <;> rfl
+  have hU : out.ctxUseCutmix.length = perLen cfg.lambMode r.imgs.length := by
+    rw [r.ctxU, f.flag_len]; cases cfg.lambMode <;> rfl
+  refine ⟨hL, hU, outImgs cfg r.pl r.imgs, outRows cfg r.pl rows, out_images r, hout, ?_⟩
+  intro i hi
+  have hpick : pick cfg.lambMode i < perLen cfg.lambMode r.imgs.length := by
+    cases cfg.lambMode <;> simp [pick, perLen] <;> omega
+  have e1 : out.ctxLambda[pick cfg.lambMode i]? = some (lamAt cfg r.pl i) := by
+    rw [List.getElem?_eq_getElem (by omega)]
+    simp [lamAt, ← r.ctxL, List.getD_eq_getElem?_getD, List.getElem?_eq_getElem (show pick cfg.lambMode i < out.ctxLambda.length by omega)]
+  have e2 : out.ctxUseCutmix[pick cfg.lambMode i]? = some (flagAt cfg r.pl i) := by
+    rw [List.getElem?_eq_getElem (by omega)]
+    simp [flagAt, ← r.ctxU, List.getD_eq_getElem?_getD, List.getElem?_eq_getElem (show pick cfg.lambMode i < out.ctxUseCutmix.length by omega)]
+  refine ⟨lamAt cfg r.pl i, flagAt cfg r.pl i, e1, e2, ?_, ?_, ?_⟩
+  · rw [outRows_getD cfg r.pl rows i (by omega), f.idxY_eq, f.partner i hi, r.perm]
+  · intro hfl c rr k
+    rw [outImgs_getD cfg r.pl r.imgs i hi]
+    simp only [hfl, Bool.false_eq_true, if_false, mixImg]
+    rw [f.partner i hi, r.perm]
+  · intro hfl
+    obtain ⟨hlam, ch, cw, hhf, whf, hbox, hch, hcw⟩ := f.cut hok htp i hi hfl
+    have hb := mkBox_bounds r.h r.w ch cw hhf whf hch hcw
+    rw [← hbox] at hb
+    simp only at hb
+    refine ⟨boxAt cfg r.pl i, hb.1, hb.2.1, hb.2.2.1, hb.2.2.2, by omega, by omega, ?_, ?_⟩
+    · intro c rr k
+      rw [outImgs_getD cfg r.pl r.imgs i hi]
+      simp only [hfl, if_true, paste]
+      rw [f.partner i hi, r.perm]
+    · rw [hlam]
+      exact c10x_retained_fraction r.h r.w _ hb.1 hb.2.1 hb.2.2.1 hb.2.2.2 (by omega) (by omega)
+
+/-- on the shared witness: weights `7/8` (cutmix, 14 of 16 pixels kept), `2/5` (mixup), `3/4` (cutmix) -/
+example : ∃ out, collate exCfg exHalves exTape exMode exBatch = .ok out ∧ out.ctxLambda.length = 3 ∧
+    out.ctxLambda = [7/8, 2/5, 3/4] := by
+  obtain ⟨out, h⟩ := ex_ok
+  refine ⟨out, h, (ctx_lambda_is_weight_used h ex_getX ex_classMode ex_getY ex_tapeOk ex_totalP).1, ?_⟩
+  have hv := ex_values
+  rw [h] at hv
+  simp only [Bool.and_eq_true, beq_iff_eq] at hv
+  exact hv.1.2
+
+example : retainedCount 4 4 (mkBox 4 4 1 0 1 1) = 14 ∧ pastedCount 4 4 (mkBox 4 4 1 0 1 1) = 2 ∧
+    (mkBox 4 4 1 0 1 1) = ⟨0, 0, 2, 1⟩ := by decide
+
+/-- **lamb_mode=batch: one weight, one decision and one box for the whole batch** ("use the same lambda/bbox
+    for all samples in the batch"; this is the mode `MAEFinetuneMixCollator` runs in). For every successful
+    call on a non-empty batch with a contract-respecting tape: the context holds exactly one weight `lam ∈ [0,1]`
+    and one flag `uc`; every sample's reported weight/flag is that one; if `uc` is mixup every image is
+    `lam·x_i + (1-lam)·x_p(i)`; if `uc` is cutmix there is ONE slice `b`, inside the non-empty image, pasted
+    into every image from its partner, and the retained pixel fraction of `b` (counted position by position) is
+    `lam`. (`0 < B`: a DataLoader never collates an empty batch; without a sample the box facts have no witness.) -/
+theorem lamb_mode_batch_shared {cfg halves tape mode batch out h w imgs}
+    (hc : collate cfg halves tape mode batch = .ok out) (hx : getItem mode "x" batch = some (.x h w imgs))
+    (hm : cfg.lambMode = .batch) (hok : TapeOk tape) (htp : 0 ≤ cfg.totalP) (hB : 0 < imgs.length) :
+    ∃ lam uc imgs', out.ctxLambda = [lam] ∧ out.ctxUseCutmix = [uc] ∧ 0 ≤ lam ∧ lam ≤ 1 ∧
+      (∀ i, ctxWeight cfg out i = lam ∧ ctxFlag cfg out i = uc) ∧
+      getItem mode "x" out.batch = some (.x h w imgs') ∧ imgs'.length = imgs.length ∧
+      (uc = false → ∀ i, i < imgs.length → ∀ c r k, imgs'.getD i zeroImg c r k =
+          lam * imgs.getD i zeroImg c r k +
+          (1 - lam) * imgs.getD (partnerSpec cfg.shuffle imgs.length out.perm i) zeroImg c r k) ∧
+      (uc = true → ∃ b : Box, b.top ≤ b.bot ∧ b.bot ≤ h ∧ b.left ≤ b.right ∧ b.right ≤ w ∧ 0 < h ∧ 0 < w ∧
+          (retainedCount h w b : Rat) / ((h * w : Nat) : Rat) = lam ∧
+          ∀ i, i < imgs.length → ∀ c r k, imgs'.getD i zeroImg c r k =
+            if b.mem r k = true then imgs.getD (partnerSpec cfg.shuffle imgs.length out.perm i) zeroImg c r k
+            else imgs.getD i zeroImg c r k) := by
+  obtain ⟨r⟩ := collate_run hc
+  have hg := r.getX
+  rw [hx] at hg
+  simp only [Option.some.injEq, Item.x.injEq] at hg
+  obtain ⟨hh, hw, himgs⟩ := hg
+  subst hh hw himgs
+  have f := plan_facts r.hplan
+  have hlamI : ∀ i, lamAt cfg r.pl i = lamAt cfg r.pl 0 := by intro i; simp [lamAt, hm, pick]
+  have hflI : ∀ i, flagAt cfg r.pl i = flagAt cfg r.pl 0 := by intro i; simp [flagAt, hm, pick]
+  have hboxI : ∀ i, boxAt cfg r.pl i = boxAt cfg r.pl 0 := by intro i; simp [boxAt, hm, pick]
+  have hL : r.pl.lambda = [lamAt cfg r.pl 0] := by
+    have hl := f.lam_len
+    rw [hm] at hl
+    simp only at hl
+    cases hlam : r.pl.lambda with
+    | nil => rw [hlam] at hl; cases hl
+    | cons x xs =>
+      rw [hlam] at hl
+      have : xs = [] := List.eq_nil_of_length_eq_zero (by simpa using hl)
+      subst this
+      simp [lamAt, hm, pick, hlam]
+  have hU : r.pl.useCutmix = [flagAt cfg r.pl 0] := by
+    have hl := f.flag_len
+    rw [hm] at hl
+    simp only at hl
+    cases hfl : r.pl.useCutmix with
+    | nil => rw [hfl] at hl; cases hl
+    | cons x xs =>
+      rw [hfl] at hl
+      have : xs = [] := List.eq_nil_of_length_eq_zero (by simpa using hl)
+      subst this
+      simp [flagAt, hm, pick, hfl]
+  have hrange := ctx_weight_range hc r.getX hok htp 0 hB
+  have hW : ∀ i, ctxWeight cfg out i = lamAt cfg r.pl 0 := by
+    intro i; rw [← hlamI i]; simp [ctxWeight, lamAt, r.ctxL]
+  rw [hW 0] at hrange
+  refine ⟨lamAt cfg r.pl 0, flagAt cfg r.pl 0, outImgs cfg r.pl r.imgs, by rw [r.ctxL, hL], by rw [r.ctxU, hU],
+    hrange.1, hrange.2, ?_, out_images r, by simp [outImgs], ?_, ?_⟩
+  · intro i
+    refine ⟨hW i, ?_⟩
+    rw [← hflI i]; simp [ctxFlag, flagAt, r.ctxU]
+  · intro hfl i hi c rr k
+    rw [outImgs_getD cfg r.pl r.imgs i hi]
+    simp only [hflI i, hfl, Bool.false_eq_true, if_false, mixImg, hlamI i]
+    rw [f.partner i hi, r.perm]
+  · intro hfl
+    obtain ⟨hlam, ch, cw, hhf, whf, hbox, hch, hcw⟩ := f.cut hok htp 0 hB hfl
+    have hb := mkBox_bounds r.h r.w ch cw hhf whf hch hcw
+    rw [← hbox] at hb
+    simp only at hb
+    refine ⟨boxAt cfg r.pl 0, hb.1, hb.2.1, hb.2.2.1, hb.2.2.2, by omega, by omega, ?_, ?_⟩
+    · rw [hlam]
+      exact c10x_retained_fraction r.h r.w _ hb.1 hb.2.1 hb.2.2.1 hb.2.2.2 (by omega) (by omega)
+    · intro i hi c rr k
+      rw [outImgs_getD cfg r.pl r.imgs i hi]
+      simp only [hflI i, hfl, if_true, paste, hboxI i]
+      rw [f.partner i hi, r.perm]
+
+/-- **Totality** (non-vacuity of every theorem above, over the whole quantifier of the property). For every
+    constructor call that is accepted, every dataset mode containing `x`, every batch whose `x` item is a
+    stack of `B` images of extent `h × w` and whose label item (if the mode has `class`) is a `(B, C)` tensor
+    or a `(B,)` tensor with entries in `[0,1]`, every apply / lamb / shuffle mode (for `flip`: `B = 1` or `B`
+    even — the code asserts it), and every generator that answers the calls the code makes
+    (`expectedTape … v`: the draws in source order, built from arbitrary raw values `v` of the requested sizes
+    `ValsFit` that respect the value contract `ValsOk`): the tape satisfies `TapeOk` and `collate` returns a
+    batch. Hypotheses beyond the property's domain: `hexact` — IEEE addition `0.0 + x` is exact, so the float
+    sum handed to the model equals `cutmix_p` when `mixup_p` is `None`/`0`; `hhalves` — the float front end
+    hands in one pair of half extents per box when (and only when it matters: if) boxes are computed. -/
+theorem collate_total {a : CtorArgs} {cfg : Cfg} (hctor : ctor a = .ok cfg)
+    (hexact : orZero a.mixupP = 0 → a.floatSum = orZero a.cutmixP)
+    {mode : List String} {batch : List Item} {h w : Nat} {imgs : List Img}
+    (hmx : "x" ∈ mode) (hx : getItem mode "x" batch = some (.x h w imgs))
+    (hlab : LabelsWellFormed mode batch imgs.length)
+    (hflip : cfg.shuffle = .flip → imgs.length = 1 ∨ imgs.length % 2 = 0)
+    {v : Vals} (hfit : ValsFit cfg imgs.length v) (hok : ValsOk imgs.length h w v)
+    {halves : List (Nat × Nat)}
+    (hhalves : usesBoxes cfg v = true → halves.length = perLen cfg.lambMode imgs.length) :
+    TapeOk (expectedTape cfg imgs.length h w v) ∧
+    ∃ out, collate cfg halves (expectedTape cfg imgs.length h w v) mode batch = .ok out := by
+  obtain ⟨hcfg, hmp, hcp, htp, _⟩ := c10x_ctor_facts hctor
+  have hsum0 : cfg.mixupP = 0 → cfg.cutmixP = cfg.totalP := by
+    intro h0; rw [hcp, htp]; exact (hexact (by rw [← hmp]; exact h0)).symm
+  refine ⟨c10x_expectedTape_ok cfg hok, ?_⟩
+  obtain ⟨pl, hpl⟩ := c10x_plan_total (halves := halves) (h := h) (w := w) hcfg hsum0 hfit hok.cutU hflip hhalves
+  exact c10x_collate_of_plan hmx hx hlab hpl
+
+/-- the raw generator values behind the shared witness `exTape` -/
+def exVals : Vals := ⟨[1/10], [1/4, 3/4, 1/3], [1/5, 2/5, 3/5], [1/2, 1/2, 1/2], [1, 2, 3], [0, 1, 2], [0, 1, 2]⟩
+
+/-- the hypotheses of `collate_total` are satisfiable, and `expectedTape` reproduces the recorded tape -/
+example : expectedTape exCfg 3 4 4 exVals = exTape ∧ ValsFit exCfg 3 exVals ∧ ValsOk 3 4 4 exVals ∧
+    LabelsWellFormed exMode exBatch 3 ∧ usesBoxes exCfg exVals = true ∧ exHalves.length = perLen exCfg.lambMode 3 := by
+  have h1 : (0 : Rat) < exCfg.mixupP := by decide +kernel
+  have h2 : (0 : Rat) < exCfg.cutmixP := by decide +kernel
+  have ht : expectedTape exCfg 3 4 4 exVals = exTape := by
+    simp only [expectedTape, expectedTapeSample, h1, h2, if_true]
+    rfl
+  refine ⟨ht, ⟨rfl, rfl, rfl, rfl, rfl, rfl, rfl⟩, ⟨?_, ?_, ?_, ?_, ?_, ?_, ?_⟩, ?_, by decide +kernel, rfl⟩
+  · decide +kernel
+  · decide +kernel
+  · decide +kernel
+  · decide +kernel
+  · decide
+  · decide
+  · decide
+  · exact Or.inr (Or.inl ⟨exRows, ex_getY, rfl⟩)
+
+/-- **`empty_never_selected`, connected to the run** (lamb_mode=sample). The model writes `[]` for the
+    uninitialised `torch.empty(batch_size)` that stands in for the lambdas of a branch with probability `0`;
+    reading it would fall back to the default `0` of `getD`. This theorem shows it is never read, for every
+    accepted constructor and every successful call with a contract-respecting tape: the per-sample flags are
+    `u_i * total_p < cutmix_p` for the `rng.random(B)` draw `us` found on the tape; a sample flagged mixup has
+    `mixup_p > 0`, so the `rng.beta(mixup_alpha, mixup_alpha, size=B)` call was made and the reported weight is
+    entry `i` of that draw; a sample flagged cutmix has `cutmix_p > 0`, so the Beta/box branch ran (its weight
+    is then the retained fraction of its own box, `ctx_lambda_is_weight_used`).
+    `hexact`: IEEE `0.0 + x = x` (see `collate_total`). -/
+theorem sample_weights_come_from_draws {a : CtorArgs} {cfg halves tape mode batch out h w imgs}
+    (hctor : ctor a = .ok cfg) (hexact : orZero a.mixupP = 0 → a.floatSum = orZero a.cutmixP)
+    (hc : collate cfg halves tape mode batch = .ok out) (hx : getItem mode "x" batch = some (.x h w imgs))
+    (hm : cfg.lambMode = .sample) (hok : TapeOk tape) :
+    ∃ us, Draw.unifs us ∈ tape ∧ us.length = imgs.length ∧
+      ∀ i, i < imgs.length →
+        ctxFlag cfg out i = decide (us.getD i 0 * cfg.totalP < cfg.cutmixP) ∧
+        (ctxFlag cfg out i = false → 0 < cfg.mixupP ∧
+          ∃ alpha vs, cfg.mixupAlpha = some alpha ∧ Draw.betas alpha vs ∈ tape ∧ vs.length = imgs.length ∧
+            ctxWeight cfg out i = vs.getD i 0) ∧
+        (ctxFlag cfg out i = true → 0 < cfg.cutmixP ∧
+          ∃ alpha vs, cfg.cutmixAlpha = some alpha ∧ Draw.betas alpha vs ∈ tape ∧ vs.length = imgs.length) := by
+  obtain ⟨hcfg, hmp, hcp, htp, _⟩ := c10x_ctor_facts hctor
+  have hsum0 : cfg.mixupP = 0 → cfg.cutmixP = cfg.totalP := by
+    intro h0; rw [hcp, htp]; exact (hexact (by rw [← hmp]; exact h0)).symm
+  obtain ⟨r⟩ := collate_run hc
+  have hg := r.getX
+  rw [hx] at hg
+  simp only [Option.some.injEq, Item.x.injEq] at hg
+  obtain ⟨_, _, himgs⟩ := hg
+  subst himgs
+  have hp := r.hplan
+  unfold plan at hp
+  rw [hm] at hp
+  simp only at hp
+  obtain ⟨us, hmem, hlen, hflag, hmix, hcut⟩ := c10x_planSample_sources hm hp
+  have hus : ∀ v ∈ us, 0 ≤ v ∧ v < 1 := hok _ hmem
+  refine ⟨us, hmem, hlen, ?_⟩
+  intro i hi
+  have hF : ctxFlag cfg out i = flagAt cfg r.pl i := by simp [ctxFlag, flagAt, r.ctxU]
+  have hW : ctxWeight cfg out i = lamAt cfg r.pl i := by simp [ctxWeight, lamAt, r.ctxL]
+  have hv := hus _ (getD_mem us i 0 (by omega))
+  obtain ⟨e1, e2⟩ := empty_never_selected (us.getD i 0) cfg.totalP cfg.cutmixP cfg.mixupP hv hcfg.totalP hcfg.mp0 hsum0
+  rw [hF]
+  refine ⟨hflag i hi, ?_, ?_⟩
+  · intro hfl
+    have hpos := e2 (by rw [← hflag i hi]; exact hfl)
+    obtain ⟨alpha, vs, h1, h2, h3, h4⟩ := hmix hpos
+    exact ⟨hpos, alpha, vs, h1, h2, h3, by rw [hW]; exact h4 i hi hfl⟩
+  · intro hfl
+    have hpos := e1 (by rw [← hflag i hi]; exact hfl)
+    exact ⟨hpos, (hcut hpos).2⟩
+
+/-- the constructor call behind the shared witness `exCfg` -/
+def exArgs : CtorArgs := ⟨some (1/2), some (1/2), some (4/5), some 1, 1, some .batch, some .sample, some .roll⟩
+
+example : ctor exArgs = .ok exCfg ∧ (orZero exArgs.mixupP = 0 → exArgs.floatSum = orZero exArgs.cutmixP) ∧
+    exCfg.lambMode = .sample := by
+  refine ⟨by with_unfolding_all rfl, fun h => absurd h (by decide +kernel), rfl⟩
+
+/-! ### MAEFinetuneMixCollator = `KDMixCollator(0.8, 1.0, 0.5, 0.5, "batch", "batch", "flip")` on mode "x class" -/
+
+/-- the constructor call of `MAEFinetuneMixCollator` is accepted and yields `maeCfg` -/
+theorem mae_ctor : ctor maeArgs = .ok maeCfg := by with_unfolding_all rfl
+
+theorem mae_getX (h w : Nat) (imgs : List Img) (rows : List (List Rat)) :
+    getItem maeMode "x" [.x h w imgs, .cls2 rows] = some (.x h w imgs) := by
+  have h0 : maeMode.idxOf "x" = 0 := by decide +kernel
+  simp [getItem, h0]
+
+theorem mae_getY (h w : Nat) (imgs : List Img) (rows : List (List Rat)) :
+    getItem maeMode "class" [.x h w imgs, .cls2 rows] = some (.cls2 rows) := by
+  have h1 : maeMode.idxOf "class" = 1 := by decide +kernel
+  simp [getItem, h1]
+
+/-- **MAEFinetuneMixCollator** (anchor `common/collators/mae_finetune_mix_collator.py`): the corollary of the
+    theorems above for its fixed configuration, on a default-collated `(x, class)` batch with one-hot/soft
+    `(B, C)` labels. Every successful call with a contract-respecting tape on a non-empty batch: `B` is `1` or
+    even (flip), labels and images have the same batch size, the output is again an `(x, class)` pair, there
+    is one weight `lam ∈ [0,1]` and one decision `uc` in the context, sample `i` is mixed with sample `B-1-i`
+    — label row `lam·y_i + (1-lam)·y_{B-1-i}`; image `lam·x_i + (1-lam)·x_{B-1-i}` (mixup) or `x_i` with the one
+    common slice `b` of `x_{B-1-i}` pasted, `b` retaining exactly the fraction `lam` of the pixels (cutmix). -/
+theorem mae_collate {halves tape h w imgs rows out}
+    (hc : collate maeCfg halves tape maeMode [.x h w imgs, .cls2 rows] = .ok out)
+    (hok : TapeOk tape) (hB : 0 < imgs.length) :
+    (imgs.length = 1 ∨ imgs.length % 2 = 0) ∧ rows.length = imgs.length ∧
+    ∃ lam uc imgs' rows', out.ctxLambda = [lam] ∧ out.ctxUseCutmix = [uc] ∧ 0 ≤ lam ∧ lam ≤ 1 ∧
+      out.batch = [.x h w imgs', .cls2 rows'] ∧ imgs'.length = imgs.length ∧ rows'.length = imgs.length ∧
+      (∀ i, i < imgs.length →
+        rows'.getD i [] = mixRow lam (rows.getD i []) (rows.getD (imgs.length - 1 - i) [])) ∧
+      (uc = false → ∀ i, i < imgs.length → ∀ c r k, imgs'.getD i zeroImg c r k =
+          lam * imgs.getD i zeroImg c r k + (1 - lam) * imgs.getD (imgs.length - 1 - i) zeroImg c r k) ∧
+      (uc = true → ∃ b : Box, b.top ≤ b.bot ∧ b.bot ≤ h ∧ b.left ≤ b.right ∧ b.right ≤ w ∧ 0 < h ∧ 0 < w ∧
+          (retainedCount h w b : Rat) / ((h * w : Nat) : Rat) = lam ∧
+          ∀ i, i < imgs.length → ∀ c r k, imgs'.getD i zeroImg c r k =
+            if b.mem r k = true then imgs.getD (imgs.length - 1 - i) zeroImg c r k
+            else imgs.getD i zeroImg c r k) := by
+  have hx := mae_getX h w imgs rows
+  have hy := mae_getY h w imgs rows
+  have hcm : "class" ∈ maeMode := by decide
+  have htp : (0 : Rat) ≤ maeCfg.totalP := by decide +kernel
+  -- partner of flip
+  have hpart : ∀ i, i < imgs.length → partnerSpec maeCfg.shuffle imgs.length out.perm i = imgs.length - 1 - i := by
+    intro i hi
+    by_cases h1 : imgs.length = 1
+    · have : i = 0 := by omega
+      subst this
+      simp [partnerSpec, h1]
+    · simp [partnerSpec, h1, maeCfg]
+  have heven : imgs.length = 1 ∨ imgs.length % 2 = 0 := by
+    by_cases h1 : imgs.length = 1
+    · exact Or.inl h1
+    · exact Or.inr ((partner_follows_shuffle_mode hc hx).2.2.1 h1 rfl).1
+  obtain ⟨lam, uc, imgs', hL, hU, l0, l1, hall, hgx, hlen, hmix, hcut⟩ :=
+    lamb_mode_batch_shared hc hx rfl hok htp hB
+  obtain ⟨rows', hgy, hrl, hrows⟩ := label_formula hc hcm hy
+  obtain ⟨r⟩ := collate_run hc
+  obtain ⟨_, hrlen⟩ := out_labels_cls2 r hcm hy
+  have hri : r.imgs = imgs := by
+    have := r.getX; rw [hx] at this
+    simp only [Option.some.injEq, Item.x.injEq] at this
+    exact this.2.2.symm
+  rw [hri] at hrlen
+  have hblen := (passthrough hc).1
+  have hbatch : out.batch = [.x h w imgs', .cls2 rows'] := by
+    have h0 : maeMode.idxOf "x" = 0 := by decide +kernel
+    have h1 : maeMode.idxOf "class" = 1 := by decide +kernel
+    unfold getItem at hgx hgy
+    rw [h0] at hgx
+    rw [h1] at hgy
+    match hb : out.batch, hblen, hgx, hgy with
+    | [a, b], _, hgx, hgy =>
+      simp only [List.getElem?_cons_zero, List.getElem?_cons_succ, Option.some.injEq] at hgx hgy
+      rw [hgx, hgy]
+  refine ⟨heven, hrlen, lam, uc, imgs', rows', hL, hU, l0, l1, hbatch, hlen, by rw [hrl, hrlen], ?_, ?_, ?_⟩
+  · intro i hi
+    rw [hrows i (by omega), (hall i).1, hrlen, hpart i hi]
+  · intro hfl i hi c rr k
+    rw [hmix hfl i hi c rr k, hpart i hi]
+  · intro hfl
+    obtain ⟨b, b1, b2, b3, b4, b5, b6, b7, b8⟩ := hcut hfl
+    refine ⟨b, b1, b2, b3, b4, b5, b6, b7, ?_⟩
+    intro i hi c rr k
+    rw [b8 i hi c rr k, hpart i hi]
+
+/-- `MAEFinetuneMixCollator` never fails on a well-formed batch: an `(x, class)` batch of `B` images and a
+    `(B, C)` label tensor, `B = 1` or even, any generator answering the calls the code makes, half extents
+    handed in iff the cutmix branch is taken -/
+theorem mae_total {h w : Nat} {imgs : List Img} {rows : List (List Rat)} (hrows : rows.length = imgs.length)
+    (heven : imgs.length = 1 ∨ imgs.length % 2 = 0)
+    {v : Vals} (hfit : ValsFit maeCfg imgs.length v) (hok : ValsOk imgs.length h w v)
+    {halves : List (Nat × Nat)} (hhalves : usesBoxes maeCfg v = true → halves.length = 1) :
+    TapeOk (expectedTape maeCfg imgs.length h w v) ∧
+    ∃ out, collate maeCfg halves (expectedTape maeCfg imgs.length h w v) maeMode [.x h w imgs, .cls2 rows] = .ok out :=
+  collate_total mae_ctor (fun h0 => absurd h0 (by decide +kernel)) (by decide) (mae_getX h w imgs rows)
+    (Or.inr (Or.inl ⟨rows, mae_getY h w imgs rows, hrows⟩)) (fun _ => heven) hfit hok hhalves
+
+/-! ### further non-vacuity witnesses: the mode combinations the shared witness does not cover
+Each is a concrete successful call (kernel-evaluated): reported weights / flags / permutation, emitted labels and
+one emitted pixel. Images encode the sample id: `wImg s c r k = 100·s + 1000·c + 10·r + k`. -/
+
+def wImg (s : Nat) : Img := fun c r k => ((s * 100 + c * 1000 + r * 10 + k : Nat) : Rat)
+
+/-- pixel `(c, r, k)` of image `i` of the emitted batch (`-1` if there is no image item) -/
+def outPixel (mode : List String) (o : Out) (i c r k : Nat) : Rat :=
+  match getItem mode "x" o.batch with
+  | some (.x _ _ imgs) => imgs.getD i zeroImg c r k
+  | _ => -1
+
+/-- 2-d labels of the emitted batch -/
+def outRows2 (mode : List String) (o : Out) : List (List Rat) :=
+  match getItem mode "class" o.batch with
+  | some (.cls2 rows) => rows
+  | _ => []
+
+/-- 1-d labels of the emitted batch -/
+def outYs (mode : List String) (o : Out) : List Rat :=
+  match getItem mode "class" o.batch with
+  | some (.cls1 ys) => ys
+  | _ => []
+
+/-- MAE configuration (lamb_mode=batch, flip), cutmix branch, `B = 2`, 4×4 images: one box `[1:3, 0:2]`, weight
+    `12/16`, image 0 shows image 1 inside the box and itself outside -/
+example : (match collate maeCfg [(1, 1)] [.unif (1/10), .unif (1/4), .beta 1 (1/2), .ints 4 [2], .ints 4 [1]] maeMode
+      [.x 4 4 [wImg 0, wImg 1], .cls2 [[1, 0, 0], [0, 0, 1]]] with
+    | .ok o => o.ctxLambda == [3/4] && o.ctxUseCutmix == [true] && o.perm == none &&
+        outRows2 maeMode o == [[3/4, 0, 1/4], [1/4, 0, 3/4]] &&
+        outPixel maeMode o 0 0 1 0 == 110 && outPixel maeMode o 0 0 0 0 == 0 && outPixel maeMode o 1 0 2 1 == 21
+    | .error _ => false) = true := by decide +kernel
+
+/-- MAE configuration, mixup branch: weight `1/4` for both samples and both tensors -/
+example : (match collate maeCfg [] [.unif (1/10), .unif (3/4), .beta (4/5) (1/4)] maeMode
+      [.x 2 2 [wImg 0, wImg 1], .cls2 [[1, 0, 0], [0, 0, 1]]] with
+    | .ok o => o.ctxLambda == [1/4] && o.ctxUseCutmix == [false] &&
+        outRows2 maeMode o == [[1/4, 0, 3/4], [3/4, 0, 1/4]] &&
+        outPixel maeMode o 0 0 0 0 == 75 && outPixel maeMode o 1 0 1 1 == 36
+    | .error _ => false) = true := by decide +kernel
+
+/-- lamb_mode=batch, shuffle_mode=random, apply_mode=sample, pure mixup (`cutmix_p = None`), binary scalar labels,
+    layout "x index class", `B = 3`: the permutation `[2, 0, 1]` is drawn once and used for image and label -/
+example : (match collate ⟨1, 0, 1, some (1/2), none, .sample, .batch, .random⟩ []
+      [.unifs [1/10, 1/5, 1/2], .unif (1/4), .beta (1/2) (1/4), .perm 3 [2, 0, 1]] ["x", "index", "class"]
+      [.x 1 2 [wImg 0, wImg 1, wImg 2], .other 5, .cls1 [0, 1, 1]] with
+    | .ok o => o.ctxLambda == [1/4] && o.ctxUseCutmix == [false] && o.perm == some [2, 0, 1] &&
+        o.ctxApply == [true, true, true] && outYs ["x", "index", "class"] o == [3/4, 1/4, 1] &&
+        outPixel ["x", "index", "class"] o 0 0 0 0 == 150 && outPixel ["x", "index", "class"] o 1 0 0 1 == 26
+    | .error _ => false) = true := by decide +kernel
+
+/-- lamb_mode=sample, shuffle_mode=random, pure cutmix (`mixup_p = None`: the `torch.empty` mixup lambdas), `B = 3`,
+    2×4 images: per-sample boxes (two of them empty ⇒ weight 1), permutation `[1, 2, 0]` -/
+example : (match collate ⟨0, 1, 1, none, some 1, .batch, .sample, .random⟩ [(1, 1), (0, 1), (1, 0)]
+      [.unif (1/10), .unifs [1/4, 3/4, 1/3], .betas 1 [1/2, 9/10, 1/2], .ints 2 [0, 1, 1], .ints 4 [0, 1, 3],
+       .perm 3 [1, 2, 0]] ["x", "class"]
+      [.x 2 4 [wImg 0, wImg 1, wImg 2], .cls2 [[1, 0], [0, 1], [1, 0]]] with
+    | .ok o => o.ctxLambda == [7/8, 1, 1] && o.ctxUseCutmix == [true, true, true] && o.perm == some [1, 2, 0] &&
+        outRows2 ["x", "class"] o == [[7/8, 1/8], [0, 1], [1, 0]] &&
+        outPixel ["x", "class"] o 0 0 0 0 == 100 && outPixel ["x", "class"] o 0 0 0 1 == 1
+    | .error _ => false) = true := by decide +kernel
+
+/-- lamb_mode=sample, apply_mode=sample, shuffle_mode=flip, mixed mixup/cutmix flags, `B = 4` -/
+example : (match collate ⟨1/2, 1/2, 1, some (4/5), some 1, .sample, .sample, .flip⟩ [(1, 1), (1, 1), (1, 1), (1, 1)]
+      [.unifs [1/10, 1/10, 1/10, 1/10], .unifs [1/4, 3/4, 1/3, 9/10], .betas (4/5) [1/5, 2/5, 3/5, 4/5],
+       .betas 1 [1/2, 1/2, 1/2, 1/2], .ints 2 [0, 1, 1, 0], .ints 2 [0, 1, 1, 0]] ["x", "class"]
+      [.x 2 2 [wImg 0, wImg 1, wImg 2, wImg 3], .cls2 [[1, 0], [0, 1], [1, 0], [0, 1]]] with
+    | .ok o => o.ctxLambda == [3/4, 2/5, 0, 4/5] && o.ctxUseCutmix == [true, false, true, false] && o.perm == none &&
+        outRows2 ["x", "class"] o == [[3/4, 1/4], [3/5, 2/5], [0, 1], [1/5, 4/5]] &&
+        outPixel ["x", "class"] o 0 0 0 0 == 300 && outPixel ["x", "class"] o 1 0 0 0 == 160
+    | .error _ => false) = true := by decide +kernel
+
+/-- flip on an odd batch (`B = 3`) is the code's `assert len(item) % 2 == 0` -/
+example : (match collate maeCfg [] [.unif (1/10), .unif (3/4), .beta (4/5) (1/4)] maeMode
+      [.x 2 2 [wImg 0, wImg 1, wImg 2], .cls2 [[1, 0], [0, 1], [1, 0]]] with
+    | .error e => e == .assertion
+    | .ok _ => false) = true := by decide +kernel
+
+/-! ### the general theorems applied to a concrete `MAEFinetuneMixCollator` call (hypotheses satisfiable) -/
+
+def maeExTape : Tape := [.unif (1/10), .unif (1/4), .beta 1 (1/2), .ints 4 [2], .ints 4 [1]]
+def maeExImgs : List Img := [wImg 0, wImg 1]
+def maeExRows : List (List Rat) := [[1, 0, 0], [0, 0, 1]]
+/-- raw generator values behind `maeExTape` (`mixLam` is not requested in the cutmix branch) -/
+def maeExVals : Vals := ⟨[1/10], [1/4], [0], [1/2], [2], [1], [0, 1]⟩
+
+theorem maeEx_ok : ∃ out, collate maeCfg [(1, 1)] maeExTape maeMode [.x 4 4 maeExImgs, .cls2 maeExRows] = .ok out := by
+  have h : (match collate maeCfg [(1, 1)] maeExTape maeMode [.x 4 4 maeExImgs, .cls2 maeExRows] with
+      | .ok _ => true | .error _ => false) = true := by decide +kernel
+  cases hc : collate maeCfg [(1, 1)] maeExTape maeMode [.x 4 4 maeExImgs, .cls2 maeExRows] with
+  | ok o => exact ⟨o, rfl⟩
+  | error e => rw [hc] at h; cases h
+
+theorem maeEx_valsOk : ValsOk 2 4 4 maeExVals := by
+  refine ⟨?_, ?_, ?_, ?_, ?_, ?_, ?_⟩
+  · decide +kernel
+  · decide +kernel
+  · decide +kernel
+  · decide +kernel
+  · decide
+  · decide
+  · decide
+
+theorem maeEx_tape : expectedTape maeCfg 2 4 4 maeExVals = maeExTape := by
+  have h1 : maeExVals.cutU.getD 0 0 * maeCfg.totalP < maeCfg.cutmixP := by decide +kernel
+  have h2 : expectedTape maeCfg 2 4 4 maeExVals = expectedTapeBatch maeCfg 2 4 4 maeExVals := rfl
+  rw [h2]
+  unfold expectedTapeBatch
+  simp only [h1, if_true]
+  rfl
+
+/-- `mae_total` applies (and reproduces the tape), `mae_collate` and `lamb_mode_batch_shared` apply to the resulting
+    call: one weight, one flag -/
+example : (∃ out, collate maeCfg [(1, 1)] (expectedTape maeCfg 2 4 4 maeExVals) maeMode
+      [.x 4 4 maeExImgs, .cls2 maeExRows] = .ok out) ∧
+    (∃ out lam uc, collate maeCfg [(1, 1)] maeExTape maeMode [.x 4 4 maeExImgs, .cls2 maeExRows] = .ok out ∧
+      out.ctxLambda = [lam] ∧ out.ctxUseCutmix = [uc] ∧ 0 ≤ lam ∧ lam ≤ 1 ∧ out.batch.length = 2) := by
+  have hfit : ValsFit maeCfg 2 maeExVals := ⟨rfl, rfl, rfl, rfl, rfl, rfl, rfl⟩
+  obtain ⟨hok, hex⟩ := mae_total (imgs := maeExImgs) (rows := maeExRows) (h := 4) (w := 4) rfl (Or.inr rfl) hfit
+    maeEx_valsOk (halves := [(1, 1)]) (fun _ => rfl)
+  refine ⟨hex, ?_⟩
+  obtain ⟨out, hc⟩ := maeEx_ok
+  have hok' : TapeOk maeExTape := by rw [← maeEx_tape]; exact hok
+  obtain ⟨_, _, lam, uc, imgs', rows', hL, hU, l0, l1, hb, _⟩ := mae_collate hc hok' (by decide)
+  exact ⟨out, lam, uc, hc, hL, hU, l0, l1, by rw [hb]; rfl⟩
+
+/-- `sample_weights_come_from_draws` applies to the shared witness: the flags are decided by the recorded
+    `rng.random(3)` draw -/
+example : ∃ out us, collate exCfg exHalves exTape exMode exBatch = .ok out ∧ Draw.unifs us ∈ exTape ∧ us.length = 3 := by
+  obtain ⟨out, h⟩ := ex_ok
+  obtain ⟨us, h1, h2, _⟩ := sample_weights_come_from_draws (a := exArgs) (by with_unfolding_all rfl)
+    (fun h0 => absurd h0 (by decide +kernel)) h ex_getX rfl ex_tapeOk
+  exact ⟨out, us, h, h1, h2⟩
 
 end KDVerif.C10
